@@ -25,6 +25,9 @@ Section SpecInd.
   Hypothesis HEnumSwitch : forall tbl strict ip cs,
       Forall (fun c => P (snd c)) cs -> P (SEnumSwitch tbl strict ip cs).
   Hypothesis HOptFlagged : forall f ftbl mask s, P s -> P (SOptFlagged f ftbl mask s).
+  Hypothesis HCtxSwitch : forall f cs, Forall (fun c => P (snd c)) cs -> P (SCtxSwitch f cs).
+  Hypothesis HCtxAdapter : forall f opts s, P s -> P (SCtxAdapter f opts s).
+  Hypothesis HFlagSwitch : forall tbl ip cs, Forall (fun c => P (snd c)) cs -> P (SFlagSwitch tbl ip cs).
 
   Fixpoint spec_ind' (s : spec) : P s :=
     match s with
@@ -71,5 +74,20 @@ Section SpecInd.
                       | x :: r => Forall_cons x (spec_ind' (snd x)) (go r)
                       end) cs)
     | SOptFlagged f ftbl mask s' => HOptFlagged f ftbl mask s' (spec_ind' s')
+    | SCtxSwitch f cs =>
+      HCtxSwitch f cs
+                 ((fix go (l : list (option Z * spec)) : Forall (fun c => P (snd c)) l :=
+                     match l with
+                     | [] => Forall_nil _
+                     | x :: r => Forall_cons x (spec_ind' (snd x)) (go r)
+                     end) cs)
+    | SCtxAdapter f opts s' => HCtxAdapter f opts s' (spec_ind' s')
+    | SFlagSwitch tbl ip cs =>
+      HFlagSwitch tbl ip cs
+                  ((fix go (l : list (N * Z * spec)) : Forall (fun c => P (snd c)) l :=
+                      match l with
+                      | [] => Forall_nil _
+                      | x :: r => Forall_cons x (spec_ind' (snd x)) (go r)
+                      end) cs)
     end.
 End SpecInd.
